@@ -332,11 +332,17 @@ func (n *BaseNode) AppendChild(self, v Node) {
 // ReplaceChild implements Node.ReplaceChild .
 func (n *BaseNode) ReplaceChild(self, v1, insertee Node) {
 	n.InsertBefore(self, v1, insertee)
-	n.RemoveChild(self, v1)
+	if v1 != nil {
+		n.RemoveChild(self, v1)
+	}
 }
 
 // InsertAfter implements Node.InsertAfter .
 func (n *BaseNode) InsertAfter(self, v1, insertee Node) {
+	if v1 == nil {
+		n.AppendChild(self, insertee)
+		return
+	}
 	n.InsertBefore(self, v1.NextSibling(), insertee)
 }
 
